@@ -86,14 +86,14 @@ class C16(Prop):
     lean_modules = ["NV.C16.Props", "NV.C16.Witness"]
     theorems = ["NV.C16.Props." + t for t in (
         "size_bounds_output", "saveVariable_no_crash", "saveObject_no_crash", "restore_total", "restoreObject_total",
-        "roundtrip_partial", "safe_restore_keeps_old_on_error", "restoreObject_error_keeps_variable", "save_atomic",
+        "roundtrip", "safe_restore_keeps_old_on_error", "restoreObject_error_keeps_variable", "save_atomic",
         "save_complete", "save_atomic_failure", "statics_and_objects_not_persisted")]
     witness_theorems = ["NV.C16.Witness." + t for t in (
-        "cr_comes_back_as_lf", "roundtripStr_Full_false", "stray_byte_alone_ok", "stray_byte_in_array_fails",
-        "inf_comes_back_as_zero", "inf_in_array_fails", "float_keys_collapse")]
+        "float_keys_collapse", "roundtripFloatKeys_Full_false", "cr_round_trips", "stray_byte_in_array_ok",
+        "inf_is_written_as_number")]
     consts = [("maxSaveSvalueDepth", "MAX_SAVE_SVALUE_DEPTH")]
     const_headers = ["lib/efuns/options.h"]
-    quick_n = 1500
+    quick_n = 1200
     thorough_n = 20000
     search_n = 1500
     design_ref = "5/C16"
@@ -282,9 +282,66 @@ class C16(Prop):
     def nest(self, depth, kind="a"):
         v = ("i", 7)
         for i in range(depth):
-            k = kind if kind != "mix" else "amc"[i % 3]
-            v = ("a", [v]) if k == "a" else ("c", [v]) if k == "c" else ("m", [(("i", i), v)])
+            k = kind if len(kind) == 1 else "amc"[i % 3] if kind == "mix" else kind
+            if k == "a":
+                v = ("a", [v])
+            elif k == "c":
+                v = ("c", [v])
+            elif k == "m":
+                v = ("m", [(("i", i), v)])
+            elif k == "mv":          # mapping whose value is an array holding the next level and a class instance
+                v = ("m", [(("s", [0x6b, 0x30 + i % 10]), ("a", [v, ("c", [("i", i)])]))]) if i % 2 else ("a", [v])
+            elif k == "mk":          # the next level sits in the KEY of a mapping
+                v = ("m", [(v, ("i", i))])
+            else:                    # "cm": class instances inside mappings inside classes
+                v = ("c", [("s", [0x22]), v]) if i % 2 else ("m", [(("i", -i), v), (("i", i + 1), ("c", [("f", fbits(1.5))]))])
         return v
+
+    def renamed_case(self, rng, nvars):
+        """a save file written for another version of the program: some variables removed, unknown ones added, lines
+        reordered, comments; `rox` carries the values the variables must have afterwards"""
+        many = nvars != 7
+        names = ["w%d" % i for i in range(24)] if many else ["vi", "vis", "va", "vb", "vs", "vo", "vc"]
+        statics = [i % 4 == 3 for i in range(24)] if many else [False, True, False, False, True, False, False]
+        live = [self.gen_value(rng, 0, 2) if rng.chance(2, 3) else ("i", 0) for _ in names]
+        while not all(self.rx_ok(v) for v in live):
+            live = [v if self.rx_ok(v) else ("i", rng.range(1, 99)) for v in live]
+        lines = ["rm", "use many" if many else "use obj"]
+        if many:
+            lines.append("setm " + vtxt(("a", live)))
+        else:
+            # setv(i, a, b, s, c): vi, va, vb, vs = vis, vc ; vo = the object
+            live[1] = live[4]
+            live[5] = ("o",)
+            lines.append("set %s %s %s %s %s" % tuple(vtxt(live[k]) for k in (0, 2, 3, 4, 6)))
+        filevals = {}
+        body = [b"#/c16/%s.c" % (b"many" if many else b"obj")]
+        order = rng.shuffle(list(range(len(names))))
+        for k in order:
+            r = rng.below(10)
+            if r < 5:                                    # present with a new value (static ones must be ignored)
+                v = self.gen_value(rng, 0, 2)
+                if not self.rx_ok(v):
+                    v = ("i", rng.range(100, 999))
+                body.append(names[k].encode() + b" " + save_text(v))
+                if not statics[k] and names[k] not in filevals:
+                    filevals[names[k]] = v
+            elif r < 7:                                  # variable unknown to this program
+                body.append(b"gone%d " % k + save_text(self.gen_value(rng, 0, 1) if rng.chance(1, 2) else ("i", k)))
+            elif r < 8:
+                body.append(b"# comment " + names[k].encode() + b" 5")
+        nc = rng.below(2)
+        expect = []
+        for k, n in enumerate(names):
+            if statics[k]:
+                expect.append(live[k])
+            elif n in filevals:
+                expect.append(filevals[n])
+            else:
+                expect.append(live[k] if nc else ("i", 0))
+        lines.append("wf " + (b"\n".join(body) + b"\n").hex())
+        lines.append("rox %d %s" % (nc, vtxt(("a", expect))))
+        return lines
 
     def boundary(self):
         B = []
@@ -341,6 +398,23 @@ class C16(Prop):
                               "wf " + b"#/c16/obj.c\nvi 5\nva ({1,2\nvb 7\n".hex(), "ro 1", "ro 0",
                               "wf " + b"garbage".hex(), "ro 1", "wf " + b"vs 99\nvo 5\nnosuch 1\nvi \"x\"\n\nvb 1\n".hex(),
                               "ro 0", "wf " + (b"v" * 120 + b" 1\n").hex(), "ro 0"])
+        def hx(t):
+            return t.encode().hex() if t else "-"
+        names = [("/c16/data/ab", "c16/data/ab.o"), ("/c16/data/ab.c", "c16/data/ab.o"), ("/c16/data/ab.o", "c16/data/ab.o"),
+                 ("/c16/data/ab.o.c", "c16/data/ab.o.o"), ("/c16/data/x.c.o", "c16/data/x.c.o"), ("a", "a.o"), ("c", "c.o"),
+                 ("o", "o.o"), ("", ".o"), (".c", ".o"), (".o", ".o"), ("/a", "a.o"), ("/", ".o"), ("c16/data/rel", "c16/data/rel.o"),
+                 ("/c16/data/", "c16/data/.o"), ("..c", "..o"), ("x.cc", "x.cc.o"), ("/c16/data/" + "n" * 200, "c16/data/" + "n" * 200 + ".o")]
+        mk("file-names", ["set i1 i2 i3 i4 i5"] + ["son %s %d %s" % (hx(n), i % 2, hx(p)) for i, (n, p) in enumerate(names)])
+        many = [("i", k) if k % 3 else ("s", [0x61 + k]) for k in range(24)]
+        mk("many-variables", ["use many", "setm " + vtxt(("a", many)), "so 0", "setm " + vtxt(("a", [("i", 0)] * 24)), "ro 0",
+                              "setm " + vtxt(("a", [("i", 7)] * 24)), "ro 1", "so 1", "setm " + vtxt(("a", [("i", 8)] * 24)), "cp 0", "cf 0"])
+        mk("many-variables-renamed", self.renamed_case(E.Rng(7), 24))
+        mk("renamed-removed", self.renamed_case(E.Rng(8), 7) + self.renamed_case(E.Rng(9), 7)[1:])
+        mk("depth-limit-mixed", ["rt " + vtxt(self.nest(d, k)) for d in (24, 25, 26) for k in ("mv", "mk", "cm")] +
+           ["rt a[%s,%s]" % (vtxt(self.nest(24, "mix")), vtxt(self.nest(24, "m"))),
+            "set %s i1 i2 i3 %s" % (vtxt(self.nest(25, "mix")), vtxt(self.nest(12, "mv"))), "so 0", "set i0 i0 i0 i0 i0", "ro 0"])
+        mk("too-deep-object", ["set i1 %s i2 i3 i4" % vtxt(self.nest(26, "m")), "so 0", "ro 0",
+                               "set i1 %s i2 i3 i4" % vtxt(self.nest(25, "m")), "so 0", "ro 0"])
         mk("crash-points", ["set i1 s61 a[i1,i2] i7 m{i1:i2}", "so 0", "set i2 s62 a[i3] i8 m{}", "cp 0", "cf 0",
                             "ro 0"])
         mk("crash-points-nofile", ["set i1 s61 a[i1,i2] i7 m{i1:i2}", "cp 1", "cf 1"])
@@ -371,8 +445,30 @@ class C16(Prop):
         return bytes(b for b in t if b != 0)
 
     def gen_case(self, rng, cid, tier):
-        kind = rng.weighted([("rt", 8), ("malformed", 8), ("trunc-all", 1), ("object", 3), ("crash", 1)])
+        kind = rng.weighted([("rt", 8), ("malformed", 8), ("trunc-all", 1), ("object", 3), ("crash", 1), ("renamed", 2),
+                             ("many", 1), ("names", 1)])
         lines = ["rm"]
+        if kind == "renamed":
+            return E.Case(cid, self.renamed_case(rng, 24 if rng.chance(1, 3) else 7), {"origin": "generated", "kind": kind})
+        if kind == "many":
+            vals = [self.gen_value(rng, 0, 2) for _ in range(24)]
+            lines += ["use many", "setm " + vtxt(("a", vals)), "so %d" % rng.below(2),
+                      "setm " + vtxt(("a", [self.gen_scalar(rng) for _ in range(24)])), "ro %d" % rng.below(2)]
+            if rng.chance(1, 3):
+                vals = [("i", rng.range(1000, 9999))] + [self.gen_scalar(rng) for _ in range(23)]   # new differs from old
+                lines += ["setm " + vtxt(("a", vals)), "cp %d" % rng.below(2)]
+            return E.Case(cid, lines, {"origin": "generated", "kind": kind})
+        if kind == "names":
+            lines.append("set " + " ".join(vtxt(self.gen_scalar(rng)) for _ in range(5)))
+            for _ in range(rng.range(2, 6)):
+                stem = "".join(rng.choice("acox._") for _ in range(rng.range(0, 4)))
+                name = rng.choice(["", "/", "/c16/data/", "c16/data/"]) + stem + rng.choice(["", "", ".c", ".o", ".o.c", ".c.o", "c", "o"])
+                base = name[:-2] + ".o" if len(name) >= 2 and name.endswith(".c") else name if len(name) >= 2 and name.endswith(".o") else name + ".o"
+                path = base[1:] if base.startswith("/") else base
+                if ".." in path or "//" in path or path.endswith("/.o") and False:
+                    continue
+                lines.append("son %s %d %s" % (name.encode().hex() or "-", rng.below(2), path.encode().hex()))
+            return E.Case(cid, lines, {"origin": "generated", "kind": kind})
         if kind == "rt":
             for _ in range(rng.range(1, 6)):
                 lines.append("rt " + vtxt(self.gen_value(rng)))
